@@ -34,7 +34,7 @@ MOD = "props.c13sig"
 NAME_ALPHA = ranges_of_pts([ord(c) for c in "aisnfI-_1"])
 
 BODIES = ["none", "json_a", "json_b", "json_list", "form", "multipart", "octet", "multi_a", "multi_b", "multi_form"]
-RESPS = ["json_a", "json_list", "none204", "text", "bytes_stream", "sse", "primitive"]
+RESPS = ["json_a", "json_list", "none204", "text", "bytes_stream", "sse", "primitive", "ndjson", "json_seq"]
 SECOND = ["none", "err404", "stream206", "default_stream"]
 PTYPES = ["string", "integer", "array", "enum_ref", "date"]
 PLOCS = ["query", "header", "cookie"]
@@ -96,6 +96,8 @@ def _responses(P, kind, second, a, b):
         "bytes_stream": R(status_code="200", description="ok", content={"application/octet-stream": S(type="string", format="binary")}, stream=True,
                           stream_format="octet-stream"),
         "sse": R(status_code="200", description="ok", content={"text/event-stream": S(type="string")}, stream=True, stream_format="event-stream"),
+        "ndjson": R(status_code="200", description="ok", content={"application/x-ndjson": a}, stream=True, stream_format="ndjson"),
+        "json_seq": R(status_code="200", description="ok", content={"application/json-seq": S(type="object", additional_properties=True)}, stream=True, stream_format="json-seq"),
         "primitive": R(status_code="201", description="ok", content={"application/json": S(type="integer")}),
     }[kind]
     out = [prim]
@@ -326,7 +328,7 @@ def specs(tier):
         out.append((MOD, "mk", ("one", 0, 3, ("multi_a",), ("json_a", "sse"), ("none",))))
     # (c) two operations of one tag, independent kinds
     two_b = ("none", "json_a", "json_b", "multi_a", "multi_b") if q else ("none", "json_a", "json_b", "json_list", "multi_a", "multi_b", "multi_form", "octet")
-    two_r = ("json_a", "sse") if q else ("json_a", "json_list", "sse", "bytes_stream", "none204")
+    two_r = ("json_a", "sse") if q else ("json_a", "json_list", "sse", "bytes_stream", "none204", "ndjson")
     out.append((MOD, "mk", ("two", 0, 0, two_b, two_r, ("none",) if q else ("none", "stream206"))))
     return out
 
